@@ -16,6 +16,7 @@ def anchors(f):
         return _memo[id(f)]
     A = {}
     from . import names
+    from ..common import type_holds
     FIO, ASH = names.of(f, "FramedIo"), names.of(f, "AcceptStopHandle")
     for path, s in f.fns.items():
         if "::test" in path:
@@ -29,7 +30,7 @@ def anchors(f):
             A["negotiate"] = path
         elif asy and any(t.split("::")[-1] == FIO and not t.startswith("&") for t in ins) and any("dyn MultiPeerBackend" in t for t in ins):
             A["driver"] = path
-        elif asy and any(t.startswith("impl Fn(") and FIO in t for t in ins) and ASH in out:
+        elif asy and any(t.startswith("impl Fn(") and type_holds(f, t, FIO) for t in ins) and type_holds(f, out, ASH):
             if any("Path" in t for t in ins):
                 A["accept_ipc"] = path
             elif any(t == "u16" for t in ins):
